@@ -20,7 +20,9 @@ PROP = Prop(
         "matter: estimation off, filter tuning, reward metrics, decision policy, sensor parameters, noise seed/magnitude, initial "
         "estimate error, output cadence, the run split into several calls, other agents added/removed, job completion order. "
         "Non-trivial = variant differing from the base in >= 2 categories incl. at least one of {schedule, split, agent set}; "
-        "distinct by (base hash, variant categories)."
+        "distinct by (base hash, variant categories). Clause real_ray_fidelity additionally runs one drawn scenario on the REAL Ray "
+        "runtime in a subprocess and requires bit-identical truth rows and equal table sizes versus the in-process double "
+        "(skipped if a Ray runtime cannot start)."
     ),
     assumptions=[
         "bit-identical comparison (float64 bytes) of every common agent's truth state at every common epoch, in memory and in the "
@@ -234,6 +236,10 @@ def real_ray_fidelity(c, rec):
 
             raise HarnessError(f"real-Ray run failed: {r.stderr[-800:]}")
         real = json.load(open(cout))
+        if "unavailable" in real:
+            from vf.runner import Skip
+
+            raise Skip("real Ray runtime could not start here: " + real["unavailable"])
     finally:
         import shutil
 
